@@ -66,7 +66,48 @@ func c18Model(r *fw.Rand, d int, layouts []geom.Layout, valid bool) *model.G {
 		// a ring is closed in X, Y (and Z); its closing vertex may carry another M
 		c18ClosingM(r, g, mi, d)
 	}
+	if r.Chance(1, 3) {
+		// a track that stands still: consecutive coordinates equal in every ordinate
+		// but the last one (time in M, or a Z that drifts)
+		c18Stationary(r, g)
+	}
 	return g
+}
+
+func c18Stationary(r *fw.Rand, g *model.G) {
+	seq := func(s [][]float64, ring bool) {
+		hi := len(s)
+		if ring {
+			hi-- // the closing vertex stays what it is
+		}
+		for k := 1; k < hi; k++ {
+			if n := len(s[k]); n >= 2 && len(s[k-1]) == n && r.Bool() {
+				copy(s[k][:n-1], s[k-1][:n-1])
+			}
+		}
+	}
+	switch g.Kind {
+	case model.LineString, model.MultiPoint:
+		seq(g.C1, false)
+	case model.MultiLineString:
+		for _, s := range g.C2 {
+			seq(s, false)
+		}
+	case model.Polygon:
+		for _, s := range g.C2 {
+			seq(s, true)
+		}
+	case model.MultiPolygon:
+		for _, p := range g.C3 {
+			for _, s := range p {
+				seq(s, true)
+			}
+		}
+	case model.Collection:
+		for _, m := range g.Members {
+			c18Stationary(r, m)
+		}
+	}
 }
 
 func c18ClosingM(r *fw.Rand, g *model.G, mi, d int) {
